@@ -102,7 +102,7 @@ def herm_basic(rng, count, types=("d",), classes=("sym", "symsh", "herm"), nmax=
         mx = rng.choice(maxits or [80, 80, 80, 0, 1, 2, 3, 5, 10])
         tol = tol_for(rng, ty)
         a0 = "%d:%d:%s:%d" % (sel, mx, tol, sort)
-        a1 = "%d:%d:%s:%d" % (rng.choice(HERM_SEL), rng.choice([0, 1, 4, 80]), tol_for(rng, ty), rng.choice(HERM_SORT))
+        a1 = "%d:%d:%s:%d" % (rng.choice([0, 3, 7, 8] if cls == "symsh" else HERM_SEL), rng.choice([0, 1, 4, 80]), tol_for(rng, ty), rng.choice(HERM_SORT))
         hist = rng.choice(histories or ["N,I,C0", "N,I,C0", "N,V1,C0", "N,I,C0,V1,C1,I,C0", "N,I,C0,C1", "N,V2,C1,N,I,C0,I,C0"])
         sv1 = rng.choice(["rnd", "rnd2"])
         sv2 = rng.choice(["rnd", "blk" if f["fam"] == "blockdiag" else "rnd2"])
@@ -146,16 +146,25 @@ def gen_basic(rng, count, types=("d",), classes=("gen", "genrs", "gencs"), nmax=
             n = min(n, 10)
         nev, ncv = pick_dims(rng, n, gen=True, extreme=rng.random() < 0.2)
         sel = rng.choice(GEN_RULES)
+        rules1 = GEN_RULES
+        if cls == "gen":
+            # SmallestMagn on a plain general matrix: hundreds of restarts with a residual near rounding level (recorded finding)
+            sel = rng.choice([0, 1, 2, 5, 6])
+            rules1 = [0, 1, 2, 5, 6]
+        if cls == "gencs":
+            rules1 = [0]
+        if cls == "genrs":
+            rules1 = [0, 1, 2]
         if cls in ("genrs", "gencs"):
             # Smallest* of nu = eigenvalues FAR from the shift: the unwanted dominant directions converge to machine precision
             # long before the wanted ones, the residual vector degenerates to rounding noise and the near-breakdown finding
             # (known_findings.json) is hit; the suite itself lets those sections fail.  Fixed descriptors keep two such runs.
-            sel = rng.choice([0, 1, 2])
+            sel = rng.choice([0, 1, 2]) if cls == "genrs" else 0   # the complex-shift solver: LargestMagn (closest to the shift), its documented use
         sort = rng.choice(GEN_RULES)
         mx = rng.choice(maxits or [80, 80, 80, 0, 1, 2, 3, 5, 10])
         tol = tol_for(rng, ty)
         a0 = "%d:%d:%s:%d" % (sel, mx, tol, sort)
-        a1 = "%d:%d:%s:%d" % (rng.choice(GEN_RULES), rng.choice([0, 1, 4, 80]), tol_for(rng, ty), rng.choice(GEN_RULES))
+        a1 = "%d:%d:%s:%d" % (rng.choice(rules1), rng.choice([0, 1, 4, 80]), tol_for(rng, ty), rng.choice(GEN_RULES))
         hist = rng.choice(histories or ["N,I,C0", "N,I,C0", "N,V1,C0", "N,I,C0,V1,C1,I,C0", "N,I,C0,C1", "N,V2,C1,N,I,C0,I,C0"])
         kw = dict(cls=cls, ty=ty, n=n, nev=nev, ncv=ncv, seed=rng.randint(1, 10 ** 6), hist=hist, args0=a0, args1=a1,
                   sv1=rng.choice(["rnd", "rnd2"]), sv2=rng.choice(["rnd", "blk" if f["fam"] == "blockdiag" else "rnd2"]), meas=meas, ref=ref)
